@@ -102,7 +102,11 @@ def run(ctx):
     a = fi.node.args
     memo = (a.posonlyargs + a.args)[1].arg if len(a.posonlyargs + a.args) > 1 else None
     uses_memo = memo is not None and any(isinstance(n, ast.Name) and n.id == memo for n in ast.walk(fi.node) if not isinstance(n, ast.arg))
-    deep = any(e.kind == "CALL" and (N.contains(e["func"], ("free", "deepcopy")) or (e["func"][0] == "attr" and e["func"][2] == "deepcopy")) for p in paths for e in p.events)
+    def is_deepcopy(f):
+        return (f[0] == "free" and f[1].split(".")[-1] == "deepcopy") or (f[0] == "attr" and f[2] == "deepcopy")
+    calls = [e for p in paths for e in p.events if e.kind == "CALL" and is_deepcopy(e["func"])]
+    # the values of self's items are deep-copied with the memo handed on
+    deep = any(memo is not None and ("param", memo) in e["args"] and any(x[0] in ("unpack", "val") for x in N.walk(e["args"][0])) for e in calls)
     ctx.ob("C20.R2", fi, uses_memo, "__deepcopy__ takes part in the memo protocol (registers itself / passes memo on)", key="deepcopy memo")
     ctx.ob("C20.R2", fi, deep, "__deepcopy__ deep-copies the values (independent at every depth)", key="deepcopy values")
     fi, paths = own_method_paths(ctx, "Container", "__init__")
